@@ -1941,3 +1941,43 @@ M("e9-fncall-args-on-discarded-env", "C14", "fire E9", "src/compile.rs",
                     arg_env.push();
                     let arg = arg.compile(prg, &mut arg_env, circuit);
                     bindings.push((param.name.clone(), arg));""", "seed C01-f: assignments inside argument expressions are dropped")
+
+# ---------------------------------------------------------------- C03 A6
+M("a6-adder-msb-first", "C03", "fire A6", "src/circuit.rs",
+  """        // sequence of full adders:
+        for i in (0..bits).rev() {
+            let (s, c) = self.push_adder(x[i], y[i], carry);""",
+  """        // sequence of full adders:
+        for i in 0..bits {
+            let (s, c) = self.push_adder(x[i], y[i], carry);""", "carry ripples from the most significant bit")
+M("a6-carry-prev-after-update", "C03", "fire A6", "src/circuit.rs",
+  """            sum[i] = s;
+            carry_prev = carry;
+            carry = c;
+        }
+        (sum, carry, carry_prev)""",
+  """            sum[i] = s;
+            carry = c;
+            carry_prev = carry;
+        }
+        (sum, carry, carry_prev)""", "carry_prev always equals carry: signed overflow is never detected")
+M("a6-signed-overflow-uses-carry", "C03", "fire A6", "src/compile.rs",
+  """                        let overflow = if is_signed(ty_x) || is_signed(ty_y) {
+                            circuit.push_xor(carry, carry_prev)
+                        } else {
+                            carry
+                        };""",
+  """                        let overflow = if is_signed(ty_x) || is_signed(ty_y) {
+                            carry
+                        } else {
+                            circuit.push_xor(carry, carry_prev)
+                        };""", "signed additions use the unsigned overflow rule and vice versa")
+M("a6-quiet-results-renamed", "C03", "quiet", "src/circuit.rs",
+  """            let (s, c) = self.push_adder(x[i], y[i], carry);
+            sum[i] = s;
+            carry_prev = carry;
+            carry = c;""",
+  """            let (bit, carry_out) = self.push_adder(x[i], y[i], carry);
+            carry_prev = carry;
+            sum[i] = bit;
+            carry = carry_out;""", "behaviour-preserving: locals renamed, statements reordered")
